@@ -201,6 +201,21 @@ M("getitem-returns-atom-copy", ["C18"], "gaddlemaps/components/_components.py",
   "        return Atom(self._molecule_top[index], self._residues[residue_index][atom_index].copy())")
 M("rotate-uses-matrix-not-transpose-centre-shift", ["C18"], "gaddlemaps/components/_residue.py",
   "        new_pos = np.dot(atoms_pos, np.transpose(rotation_matrix)) + com", "        new_pos = np.dot(atoms_pos + com, np.transpose(rotation_matrix))")
+# ---- System recognition ------------------------------------------------------------------------
+M("system-sorted-by-species", ["C11"], "gaddlemaps/components/_system.py",
+  "        self._molecules_ordered.sort(key=lambda x: x[1])", "        self._molecules_ordered.sort(key=lambda x: (x[0], x[1]))")
+M("system-never-new-block", ["C11"], "gaddlemaps/components/_system.py",
+  "            else:\n                new_block = True\n                start_index += 1", "            else:\n                start_index += 1")
+M("system-consumed-not-marked", ["C11"], "gaddlemaps/components/_system.py",
+  "                av_gro[start_index:start_index+l_index_mol] = -1\n", "")
+M("system-failed-load-registers-species", ["C11"], "gaddlemaps/components/_system.py",
+  "        residues = self.system_gro[start_index:start_index + len(index_mol_gro)]\n        molecule = Molecule(mol_top, residues)\n        mol_index = len(self.different_molecules)\n        self.different_molecules.append(molecule)",
+  "        residues = self.system_gro[start_index:start_index + len(index_mol_gro)]\n        mol_index = len(self.different_molecules)\n        self._molecules_ordered.append([mol_index, start_index, 0])\n        molecule = Molecule(mol_top, residues)\n        self._molecules_ordered.pop()\n        self.different_molecules.append(molecule)")
+M("system-slice-ignores-step", ["C11"], "gaddlemaps/components/_system.py",
+  "                for info in islice_extended(self._molecules_ordered_all_gen(),\n                                            index.start, index.stop,\n                                            index.step):",
+  "                for info in islice_extended(self._molecules_ordered_all_gen(),\n                                            index.start, index.stop,\n                                            None):")
+M("system-multi-residue-stride", ["C11"], "gaddlemaps/components/_system.py",
+  "                yield (index, gro_start+i*len_mol, gro_start+(i+1)*len_mol)", "                yield (index, gro_start+i, gro_start+i+len_mol)")
 # ---- pbc --------------------------------------------------------------------------
 M("pbc-floor-instead-of-round", ["C19"], "gaddlemaps/components/_residue.py",
   "            vect -= np.round(vect)", "            vect -= np.floor(vect)")
